@@ -76,6 +76,8 @@ type Spec struct {
 	Grace      int          // epochs of grace (lease pools); 0 = no expiry
 	Concurrent bool         // implementation is called concurrently in production
 	StatsKind  string       // "percent", "fraction" or ""
+	Caps       *Caps        // capabilities, when they cannot be probed outside a bubble
+	Bubble     bool         // pool runs timers of its own: histories must run inside a testing/synctest bubble
 }
 
 // Op is one operation of a history.
@@ -273,6 +275,9 @@ type Runner struct {
 	hist   []string
 	subs   []string // all subscribers mentioned so far (sorted on demand)
 	seen   map[string]bool
+	// SweepEvery > 1 compares all lookups with the model only every n-th op (large-scale scenarios); Drain always sweeps.
+	SweepEvery int
+	nops       int
 	// faultArmed: set by Do for the current op iff an injected store fault fired during it
 	faultArmed bool
 }
@@ -547,7 +552,10 @@ func (r *Runner) Do(op Op) {
 			fi.FailNext(n)
 		}
 	}
-	r.sweep()
+	r.nops++
+	if r.SweepEvery <= 1 || r.nops%r.SweepEvery == 0 {
+		r.sweep()
+	}
 }
 
 func errClass(err error) string {
